@@ -364,4 +364,97 @@ theorem new_state {std : Std} {cfg : Headers} {r : Rng Data} {st : DeState} (hw 
         | err e => simp [hh2] at h
         | panic s => simp [hh2] at h
 
+/-! ### more on the header row and the map events -/
+
+theorem strOf_eq_ok {std : Std} {d : Data} {pos : Pos} {s : Str} (h : strOf std d pos = .ok s) :
+    s = textOf std d ∧ d.isError = false := by
+  cases d <;> simp_all [strOf, textOf, Data.isError]
+
+theorem headerRow_eq_ok {std : Std} {row : List Data} {pos : Pos} {hs : List Str}
+    (h : headerRow std row pos = .ok hs) : hs = row.map (textOf std) ∧ ∀ d ∈ row, d.isError = false := by
+  rw [headerRow_eq] at h
+  have hlen := mapMD_ok_length _ _ _ h
+  have hget := mapMD_ok_getElem _ _ _ h
+  constructor
+  · apply List.ext_getElem?
+    intro k
+    by_cases hk : k < row.length
+    · have hz : row.zipIdx[k]? = some (row[k], k) := by simp [List.getElem?_zipIdx, List.getElem?_eq_getElem hk]
+      obtain ⟨b, hb, hf⟩ := hget k _ hz
+      rw [hb, (strOf_eq_ok hf).1]
+      simp [List.getElem?_eq_getElem hk]
+    · have h1 : hs.length ≤ k := by rw [hlen]; simp; omega
+      rw [List.getElem?_eq_none h1, List.getElem?_eq_none (by simpa using Nat.le_of_not_lt hk)]
+  · intro d hd
+    obtain ⟨k, hk, rfl⟩ := List.getElem_of_mem hd
+    have hz : row.zipIdx[k]? = some (row[k], k) := by simp [List.getElem?_zipIdx, List.getElem?_eq_getElem hk]
+    obtain ⟨b, _, hf⟩ := hget k _ hz
+    exact (strOf_eq_ok hf).2
+
+theorem filterMap_congr_mem {α β : Type} {f g : α → Option β} : ∀ (l : List α), (∀ a ∈ l, f a = g a) →
+    l.filterMap f = l.filterMap g
+  | [], _ => rfl
+  | a :: rest, h => by
+    have h1 := h a List.mem_cons_self
+    have h2 := filterMap_congr_mem rest (fun x hx => h x (List.mem_cons_of_mem _ hx))
+    simp only [List.filterMap_cons, h1, h2]
+
+theorem range_eq_zipIdx_snd {α : Type} (l : List α) : List.range l.length = l.zipIdx.map Prod.snd := by
+  rw [List.zipIdx_map_snd, List.range_eq_range']
+
+/-- with all columns selected and a header per column, the map events are the non-empty cells of the
+    row, each with the header string of its column and its absolute position -/
+theorem mapEvents_range (hs : List Str) (row : List Data) (pos : Pos) (hl : hs.length = row.length) :
+    mapEvents hs (List.range row.length) row pos =
+      row.zipIdx.filterMap fun p =>
+        if p.1.isEmpty then none else some (.ok (hs.getD p.2 [], p.1, cellPos pos p.2)) := by
+  unfold mapEvents
+  rw [range_eq_zipIdx_snd, List.filterMap_map]
+  apply filterMap_congr_mem
+  intro p hp
+  obtain ⟨d, i⟩ := p
+  have hm := List.mem_zipIdx hp
+  have hi : i < row.length := by omega
+  have hd : row[i]? = some d := by
+    rw [List.getElem?_eq_getElem hi]; simp [hm.2.2]
+  have hh : hs[i]? = some (hs.getD i []) := by
+    have : i < hs.length := by omega
+    simp [List.getD, List.getElem?_eq_getElem this]
+  simp only [Function.comp, hd, hh]
+
+/-! ### `new`, unfolded per configuration -/
+
+theorem new_none_eq (std : Std) (r : Rng Data) :
+    new std .none r = .ok ⟨List.range r.width, none, Range.rows r, r.start.getD (0, 0)⟩ := rfl
+
+theorem new_all_eq (std : Std) {r : Rng Data} {hd : List Data} {rest : List (List Data)}
+    (h0 : r.inner.length ≠ 0) (hr : Range.rows r = hd :: rest) :
+    new std .all r = (match headerRow std hd (r.sr, r.sc) with
+      | .ok hs => .ok ⟨List.range hd.length, some hs, rest, nextRowPos (r.sr, r.sc)⟩
+      | .err e => .err e
+      | .panic s => .panic s) := by
+  unfold new
+  simp only [hr, start_eq h0, Option.getD_some]
+  cases headerRow std hd (r.sr, r.sc) <;> rfl
+
+theorem new_custom_eq (std : Std) (names : List Str) {r : Rng Data} {hd : List Data} {rest : List (List Data)}
+    (h0 : r.inner.length ≠ 0) (hr : Range.rows r = hd :: rest) :
+    new std (.custom names) r = (match headerRow std hd (r.sr, r.sc) with
+      | .ok hs => (match customIdx hs names with
+        | .ok idx => .ok ⟨idx, some hs, rest, nextRowPos (r.sr, r.sc)⟩
+        | .err e => .err e
+        | .panic s => .panic s)
+      | .err e => .err e
+      | .panic s => .panic s) := by
+  unfold new
+  simp only [hr, start_eq h0, Option.getD_some]
+  cases headerRow std hd (r.sr, r.sc) with
+  | ok hs => simp only; cases customIdx hs names <;> rfl
+  | err e => rfl
+  | panic s => rfl
+
+theorem nonempty_of_rows {r : Rng Data} {hd : List Data} {rest : List (List Data)}
+    (hr : Range.rows r = hd :: rest) : r.inner.length ≠ 0 := by
+  intro h0; rw [rows_nil_of_empty h0] at hr; cases hr
+
 end De
